@@ -34,6 +34,27 @@ theorem aimdSuccNew_inB {cfg : Cfg} (h : cfg.min ≤ cfg.max) {r : Nat} (hr : In
     InB cfg (aimdSuccNew cfg r) := by
   unfold aimdSuccNew; unfold InB at *; omega
 
+/-- a saturating `usize` operation followed by a clamp to a bound a `usize` can hold: the saturation is invisible -/
+theorem min_sat64 {x m : Nat} (h : m ≤ u64Max) : min (sat64 x) m = min x m := by
+  unfold sat64; omega
+
+/-- **`current.saturating_add(increase_by).min(max_limit)` is the model's `min (r + inc) max`**, for every `increase_by`
+(also when the sum overflows `usize`), as long as `max_limit` is a `usize` -/
+theorem aimdSuccNewSat_eq {cfg : Cfg} (h : cfg.max ≤ u64Max) (r : Nat) : aimdSuccNewSat cfg r = aimdSuccNew cfg r := by
+  unfold aimdSuccNewSat aimdSuccNew; exact min_sat64 h
+
+/-- … and `record_successes(n)`: `saturating_mul`, `saturating_add`, then the clamp -/
+theorem aimdSuccsNewSat_eq {cfg : Cfg} (h : cfg.max ≤ u64Max) (n r : Nat) :
+    aimdSuccsNewSat cfg n r = aimdSuccsNew cfg n r := by
+  unfold aimdSuccsNewSat aimdSuccsNew sat64
+  generalize cfg.inc * n = p
+  omega
+
+/-- so the value the code stores after a success stays within the bounds however large the step is -/
+theorem aimdSuccNewSat_inB {cfg : Cfg} (h : cfg.min ≤ cfg.max) (hm : cfg.max ≤ u64Max) {r : Nat} (hr : cfg.min ≤ r ∧ r ≤ cfg.max) :
+    cfg.min ≤ aimdSuccNewSat cfg r ∧ aimdSuccNewSat cfg r ≤ cfg.max := by
+  rw [aimdSuccNewSat_eq hm]; unfold aimdSuccNew; omega
+
 theorem aimdSuccsNew_inB {cfg : Cfg} (h : cfg.min ≤ cfg.max) (n : Nat) {r : Nat} (hr : InB cfg r) :
     InB cfg (aimdSuccsNew cfg n r) := by
   unfold aimdSuccsNew; unfold InB at *; omega
